@@ -229,27 +229,40 @@ fn mask_degree_commit_case<P: G>() -> Box<dyn Case> {
         for d in 1..=6usize {
             let pc = P::pc_gens(d);
             for count in 0..=8usize {
-                let r: Vec<Scalar> = (0..count).map(|i| Scalar::from(i as u64 + 11)).collect();
-                let v = Scalar::from(9u8);
+              // value alphabet {0, 1, 9, -1} x blinding patterns {distinct nonzero, all zero, zero at even / odd positions}: the
+              // domain and the value of a commitment do not depend on which scalars happen to be zero
+              for (vn, v) in [("0", Scalar::ZERO), ("1", Scalar::ONE), ("9", Scalar::from(9u8)), ("-1", -Scalar::ONE)] {
+                for pattern in ["distinct", "all-zero", "zero-at-even", "zero-at-odd"] {
+                let r: Vec<Scalar> = (0..count)
+                    .map(|i| match pattern {
+                        "all-zero" => Scalar::ZERO,
+                        "zero-at-even" if i % 2 == 0 => Scalar::ZERO,
+                        "zero-at-odd" if i % 2 == 1 => Scalar::ZERO,
+                        _ => Scalar::from(i as u64 + 11),
+                    })
+                    .collect();
                 let expect = count >= 1 && count <= d;
+                let sub = format!("commit/d={},count={},v={},r={}", d, count, vn, pattern);
                 match catch(|| P::commit(&pc, &v, &r)) {
-                    Err(p) => res.violate(format!("commit/d={},count={}", d, count), format!("panicked: {}", p)),
+                    Err(p) => res.violate(sub, format!("panicked: {}", p)),
                     Ok(out) => {
                         tally(&mut res, out.is_ok());
                         if out.is_ok() != expect {
-                            res.violate(format!("commit/d={},count={}", d, count), format!("commit returned Ok={} for {} blinding factors at degree {}", out.is_ok(), count, d));
+                            res.violate(sub.clone(), format!("commit returned Ok={} for {} blinding factors at degree {}", out.is_ok(), count, d));
                         }
                         if let Ok(c) = out {
                             let mut acc = pc.h_base.g_mul(&v);
-                            for (k, x) in r.iter().enumerate() {
+                            for (k, x) in r.iter().enumerate().take(d) {
                                 acc = acc.g_add(&pc.g_base_vec[k].g_mul(x));
                             }
                             if c != acc {
-                                res.violate(format!("commit/d={},count={}/value", d, count), "commitment is not v*H + sum r_k*G_k");
+                                res.violate(format!("{}/value", sub), "commitment is not v*H + sum r_k*G_k");
                             }
                         }
                     },
                 }
+                }
+              }
             }
         }
         res.sample = Some(json!({"group": P::NAME}));
@@ -262,7 +275,7 @@ pub fn run(rep: &mut Report) {
                 RangeStatement::init commitment count 0..=17 x promise count {count-1,count,count+1} x seed x capacity {1,2,4,8,16}; \
                 RangeWitness::init all shapes of length <= 3 over blinding counts 0..=8, one-position deviations at length 4, counts \
                 {255..258,262,512,513}; CommitmentOpening::r_len; ExtendedMask::assign degree x length 0..=8; ExtensionDegree::try_from all \
-                u8 and usize {0..=300, 2^16, 2^32, usize::MAX, values whose low byte is 1..6}; PedersenGens::commit degree x count 0..=8; \
+                u8 and usize {0..=300, 2^16, 2^32, usize::MAX, values whose low byte is 1..6}; PedersenGens::commit degree x count 0..=8 x value {0,1,9,-1} x zero patterns of the blinding vector; \
                 oracle: independent predicates from the documented domains, getters return what was requested, never a panic"
         .into();
     let mut cases: Vec<Box<dyn Case>> = Vec::new();
